@@ -197,6 +197,10 @@ fn cases() -> Vec<Case> {
     }
     // a signature naming a type that the own module and an imported module both define
     out.push(Case { funcs: vec![], style: NumStyle::Dec, exec: false, reject: None, raw: Some("@@two_modules".into()), split_impl: false, arg_names: None, expect_methods: vec![] });
+    // the same name in the module and in its parent module: the signature refers to the module's own type
+    out.push(Case { funcs: vec![], style: NumStyle::Dec, exec: false, reject: None, raw: Some("@@nested_modules".into()), split_impl: false, arg_names: None, expect_methods: vec![] });
+    // a derived type declares a function that its base already has: refused, or emitted with its own address
+    out.push(Case { funcs: vec![], style: NumStyle::Dec, exec: false, reject: None, raw: Some("@@redeclared_in_derived".into()), split_impl: false, arg_names: None, expect_methods: vec![] });
     // rejection menu
     for (why, text) in [
         ("no_address", "pub type T {\n    pub x: u64,\n}\nimpl T {\n    pub fn f(&self);\n}\n"),
@@ -224,6 +228,12 @@ fn arg_name(c: &Case, i: usize) -> String {
 
 fn module_of(c: &Case) -> String {
     if let Some(r) = &c.raw {
+        if r == "@@nested_modules" {
+            return "pub type Handle {\n    pub x: [u32; 4],\n}\npub type T {\n    pub h: Handle,\n}\nimpl T {\n    #[address(0x10000)]\n    pub fn f(&self, a: *mut Handle) -> *const Handle;\n}\n".into();
+        }
+        if r == "@@redeclared_in_derived" {
+            return "pub type B {\n    pub x: [u32; 4],\n}\nimpl B {\n    #[address(0x401000)]\n    pub fn update(&self, dt: u32);\n}\npub type T {\n    #[base]\n    pub base: B,\n}\nimpl T {\n    #[address(0x402000)]\n    pub fn update(&self, dt: u32);\n}\n".into();
+        }
         if r == "@@two_modules" {
             return "use aaa;\nuse zzz;\npub type Handle {\n    pub x: [u32; 4],\n}\npub type T {\n    pub h: Handle,\n}\nimpl T {\n    #[address(0x10000)]\n    pub fn f(&self, a: *mut Handle, b: Foreign) -> *const Handle;\n}\n".into();
         }
@@ -279,6 +289,22 @@ fn judge_text(c: &Case, text: &str) -> Option<(String, String)> {
         Ok(f) => f,
         Err(e) => return Some(("output_unreadable".into(), e)),
     };
+    if c.raw.as_deref() == Some("@@nested_modules") {
+        let Some(m) = fi.method("T", "f") else {
+            return Some(("wrapper_missing".into(), "T::f".into()));
+        };
+        let want_in = vec![("&self".to_string(), String::new()), ("a".to_string(), "*mut crate::game::ui::Handle".to_string())];
+        if m.inputs != want_in || m.output.as_deref() != Some("*const crate::game::ui::Handle") {
+            return Some(("wrapper_signature_differs".into(), format!("game::ui::T::f: declared (&self, a: *mut Handle) -> *const Handle with Handle defined in game::ui itself, emitted {:?} -> {:?}", m.inputs, m.output)));
+        }
+    }
+    if c.raw.as_deref() == Some("@@redeclared_in_derived") {
+        // accepted: then T::update is the function declared for T, at T's address
+        let updates: Vec<&synx::FnInfo> = fi.methods("T").into_iter().filter(|m| m.name == "update").collect();
+        if updates.len() != 1 || synx::int_literals(&updates[0].body) != vec![0x402000] {
+            return Some(("wrapper_address_literal_differs".into(), format!("T::update is declared at 0x402000 (its base has an `update` at 0x401000); emitted: {:?}", updates.iter().map(|m| m.body.clone()).collect::<Vec<_>>())));
+        }
+    }
     if c.raw.as_deref() == Some("@@two_modules") {
         let Some(m) = fi.method("T", "f") else {
             return Some(("wrapper_missing".into(), "T::f".into()));
@@ -379,6 +405,10 @@ pub fn run(tier: &str, only: Option<&Value>) -> i32 {
         let outs = util::par_map(idxs.len(), |j, _| {
             let c = &all[idxs[j]];
             let mut input = pipe::Input::single(module_of(c));
+            if c.raw.as_deref() == Some("@@nested_modules") {
+                input.modules[0].0 = "game::ui".into();
+                input.modules.insert(0, ("game".into(), "pub type Handle {\n    pub y: [u32; 2],\n}\npub type Other {\n    pub h: Handle,\n}\n".into()));
+            }
             if c.raw.as_deref() == Some("@@two_modules") {
                 let other = "pub type Handle {\n    pub y: [u32; 2],\n    pub z: [u32; 2],\n}\npub enum Foreign: u32 {\n    A,\n}\n".to_string();
                 input.modules.insert(0, ("aaa".into(), other.clone()));
@@ -416,6 +446,15 @@ pub fn run(tier: &str, only: Option<&Value>) -> i32 {
                     rep.count("rejected_address_beyond_isize", 1);
                     None
                 }
+                (pipe::Verdict::Err(_), None) if c.raw.as_deref() == Some("@@redeclared_in_derived") => {
+                    rep.count("redeclaration_of_an_inherited_function_rejected", 1);
+                    None
+                }
+                (pipe::Verdict::Ok(b), None) if c.raw.as_deref() == Some("@@nested_modules") => match b.files.get("game/ui.rs") {
+                    Some(t) => judge_text(c, t).map(|(k, d)| (k, format!("{d}\n--- emitted ---\n{t}"))),
+                    None => Some(("wrapper_missing".to_string(), format!("no output file game/ui.rs: {:?}", b.files.keys().collect::<Vec<_>>()))),
+                },
+                (pipe::Verdict::Ok(b), None) if !b.files.contains_key("m.rs") => Some(("wrapper_missing".to_string(), format!("no output file m.rs: {:?}", b.files.keys().collect::<Vec<_>>()))),
                 (pipe::Verdict::Ok(b), None) => {
                     let r = judge_text(c, &b.files["m.rs"]);
                     if r.is_none() && ps == 8 && c.exec {
